@@ -99,6 +99,9 @@ def check(ctx: Ctx, rep: Report):
     c09_r4(ctx, sub)
     for o in sub.obligations:
         rep.obligations.append(type(o)("C01.R1", "bind:" + o.key, o.where, o.what, o.status, o.detail))
+    # ... and nobody but the protocol's own locked helpers re-binds them afterwards (shared with C06.R1 foreign-writer:*)
+    from .c06 import foreign_writers
+    foreign_writers(ctx, rep, "C01.R1")
     r2(ctx, rep, fams)
     r3(ctx, rep, fams)
     r4(ctx, rep, fams)
